@@ -36,6 +36,11 @@ fn set_board(ctx: &mut Ctx, r: &mut Replica, p: &Pos1) -> Step {
         Ok(b) => b,
         Err(e) => return ctx.fail(Prop::C06, "parse.rejected-canonical", String::new(), format!("{}: {e}", p.fen())),
     };
+    // a board that does not read back as the record it was parsed from is the parser's failure
+    // (C05), and nothing the plugin does with it afterwards can be held against the plugin
+    if let Some(comp) = op(Op::Print, || sut::load_mismatch(&b, p)) {
+        return ctx.fail(Prop::C05, "fen.parsed-differs", format!("component={comp}"), format!("parsing {:?}: the board differs in {comp}", p.fen()));
+    }
     op(Op::Plugin, || r.eng.set_board(b));
     r.model = p.clone();
     r.counts = [BTreeMap::new(), BTreeMap::new()];
